@@ -168,6 +168,20 @@ func (e *Eth) TxFaults() (failed, pending int) {
 	return e.txFailed, len(e.failTx)
 }
 
+// TxFaultHorizon returns how many further transmissions it takes until the last pending injected failure
+// has happened (0 = none pending).
+func (e *Eth) TxFaultHorizon() int {
+	e.mu.Lock()
+	defer e.mu.Unlock()
+	hz := 0
+	for i := range e.failTx {
+		if i+1-e.tx > hz {
+			hz = i + 1 - e.tx
+		}
+	}
+	return hz
+}
+
 func (e *Eth) Closed() bool {
 	e.mu.Lock()
 	defer e.mu.Unlock()
